@@ -212,6 +212,7 @@ def main(argv=None):
     ap.add_argument("--budget", type=float)
     ap.add_argument("--workers", type=int, default=int(os.environ.get("VERIF_WORKERS", "0")) or (os.cpu_count() or 4))
     ap.add_argument("--no-evidence", action="store_true")
+    ap.add_argument("--dump-viol", help="authoring aid: write every violation signature with its inputs to this file")
     a = ap.parse_args(argv)
     prop = a.prop.upper()
     try:
@@ -238,6 +239,11 @@ def main(argv=None):
             print("HARNESS-ERROR:", h["harness_error"], "item=", json.dumps(h.get("item"), default=jdefault)[:500])
         print(f"{prop}: {len(ctx.harness_errors)} work items crashed inside the harness; no verdict")
         return 2
+
+    if a.dump_viol:
+        with open(a.dump_viol, "w") as f:
+            json.dump({sig: {"count": e["count"], "inputs": sorted(e["inputs"]), "what": e["first"][0].get("what")}
+                       for sig, e in sorted(ctx.viol.items())}, f, indent=1, default=jdefault)
 
     # ---- known findings ------------------------------------------------------------------------
     known = findings.load(prop)
